@@ -281,21 +281,29 @@ theorem Inert.reprioEv {w0 w : World} (h : Inert w0 w) {k : Nat} {v : Int} {ev' 
 
 /-! ### the tactic -/
 
+/-- like `guard_world_lit`, but looks through annotations left by `simp` -/
+elab "guard_world_lit'" : tactic => do
+  let g ← Lean.Elab.Tactic.getMainGoal
+  let t ← Lean.instantiateMVars (← g.getType)
+  let t := t.cleanupAnnotations
+  unless t.isApp && t.appArg!.cleanupAnnotations.isAppOf ``World.mk do
+    throwError "the last argument of the goal is not a World literal"
+
 syntax "inert_step" : tactic
 macro_rules | `(tactic| inert_step) => `(tactic| dsimp only)
-macro_rules | `(tactic| inert_step) => `(tactic| (guard_world_lit; with_reducible apply Inert.setGvars))
-macro_rules | `(tactic| inert_step) => `(tactic| (guard_world_lit; with_reducible apply Inert.setFlags))
-macro_rules | `(tactic| inert_step) => `(tactic| (guard_world_lit; with_reducible refine Inert.setPqsModify ?_ _ _ (fun _ => rfl)))
-macro_rules | `(tactic| inert_step) => `(tactic| (guard_world_lit; with_reducible refine Inert.setPqsSet ?_ _ _ (by obj_side)))
-macro_rules | `(tactic| inert_step) => `(tactic| (guard_world_lit; with_reducible refine Inert.setOqsModify ?_ _ _ (fun _ => rfl)))
-macro_rules | `(tactic| inert_step) => `(tactic| (guard_world_lit; with_reducible refine Inert.setOqsSet ?_ _ _ (by obj_side)))
-macro_rules | `(tactic| inert_step) => `(tactic| (guard_world_lit; with_reducible refine Inert.setBufsModify ?_ _ _ (fun _ => rfl)))
-macro_rules | `(tactic| inert_step) => `(tactic| (guard_world_lit; with_reducible refine Inert.setBufsSet ?_ _ _ (by obj_side)))
-macro_rules | `(tactic| inert_step) => `(tactic| (guard_world_lit; with_reducible refine Inert.setPoolsModify ?_ _ _ (fun _ => rfl)))
-macro_rules | `(tactic| inert_step) => `(tactic| (guard_world_lit; with_reducible refine Inert.setPoolsSet ?_ _ _ (by obj_side)))
-macro_rules | `(tactic| inert_step) => `(tactic| (guard_world_lit; with_reducible refine Inert.setResModify ?_ _ _ (fun _ => rfl)))
-macro_rules | `(tactic| inert_step) => `(tactic| (guard_world_lit; with_reducible refine Inert.setResSet ?_ _ _ (by obj_side)))
-macro_rules | `(tactic| inert_step) => `(tactic| (guard_world_lit; with_reducible apply Inert.setEvWaiters))
+macro_rules | `(tactic| inert_step) => `(tactic| (guard_world_lit'; with_reducible apply Inert.setGvars))
+macro_rules | `(tactic| inert_step) => `(tactic| (guard_world_lit'; with_reducible apply Inert.setFlags))
+macro_rules | `(tactic| inert_step) => `(tactic| (guard_world_lit'; with_reducible refine Inert.setPqsModify ?_ _ _ (fun _ => rfl)))
+macro_rules | `(tactic| inert_step) => `(tactic| (guard_world_lit'; with_reducible refine Inert.setPqsSet ?_ _ _ (by obj_side)))
+macro_rules | `(tactic| inert_step) => `(tactic| (guard_world_lit'; with_reducible refine Inert.setOqsModify ?_ _ _ (fun _ => rfl)))
+macro_rules | `(tactic| inert_step) => `(tactic| (guard_world_lit'; with_reducible refine Inert.setOqsSet ?_ _ _ (by obj_side)))
+macro_rules | `(tactic| inert_step) => `(tactic| (guard_world_lit'; with_reducible refine Inert.setBufsModify ?_ _ _ (fun _ => rfl)))
+macro_rules | `(tactic| inert_step) => `(tactic| (guard_world_lit'; with_reducible refine Inert.setBufsSet ?_ _ _ (by obj_side)))
+macro_rules | `(tactic| inert_step) => `(tactic| (guard_world_lit'; with_reducible refine Inert.setPoolsModify ?_ _ _ (fun _ => rfl)))
+macro_rules | `(tactic| inert_step) => `(tactic| (guard_world_lit'; with_reducible refine Inert.setPoolsSet ?_ _ _ (by obj_side)))
+macro_rules | `(tactic| inert_step) => `(tactic| (guard_world_lit'; with_reducible refine Inert.setResModify ?_ _ _ (fun _ => rfl)))
+macro_rules | `(tactic| inert_step) => `(tactic| (guard_world_lit'; with_reducible refine Inert.setResSet ?_ _ _ (by obj_side)))
+macro_rules | `(tactic| inert_step) => `(tactic| (guard_world_lit'; with_reducible apply Inert.setEvWaiters))
 macro_rules | `(tactic| inert_step) => `(tactic| split)
 macro_rules | `(tactic| inert_step) => `(tactic| with_reducible apply Inert.sched_fst)
 macro_rules | `(tactic| inert_step) => `(tactic| (with_reducible refine Inert.modProc ?_ _ _ (fun _ => rfl)))
